@@ -185,9 +185,61 @@ func (r *rewriter) list(in []ast.Stmt) []ast.Stmt {
 			continue
 		}
 		id := r.newSite(s.Pos(), "stmt")
+		if gs, isGo := s.(*ast.GoStmt); isGo {
+			out = append(out, yieldStmt(id), goRewrite(gs))
+			continue
+		}
 		out = append(out, yieldStmt(id), s)
 	}
 	return out
+}
+
+// goRewrite turns `go f(a, b)` into a block that evaluates the function
+// value and the arguments where the go statement stood (as the language
+// does) and hands the call to simrt.Go, which starts the goroutine as a task
+// of the simulation (a plain `go` outside one).
+func goRewrite(gs *ast.GoStmt) ast.Stmt {
+	call := gs.Call
+	goCall := func(fn ast.Expr) ast.Stmt {
+		return &ast.ExprStmt{X: &ast.CallExpr{
+			Fun:  &ast.SelectorExpr{X: ast.NewIdent("simrt"), Sel: ast.NewIdent("Go")},
+			Args: []ast.Expr{fn},
+		}}
+	}
+	if fl, ok := call.Fun.(*ast.FuncLit); ok && len(call.Args) == 0 && fl.Type.Results == nil {
+		return goCall(fl)
+	}
+	var stmts []ast.Stmt
+	define := func(name string, v ast.Expr) ast.Expr {
+		stmts = append(stmts, &ast.AssignStmt{Lhs: []ast.Expr{ast.NewIdent(name)}, Tok: token.DEFINE, Rhs: []ast.Expr{v}})
+		return ast.NewIdent(name)
+	}
+	fn := define("verifGoF", call.Fun)
+	var args []ast.Expr
+	for i, a := range call.Args {
+		inline := false
+		switch x := a.(type) {
+		case *ast.BasicLit:
+			inline = true
+		case *ast.Ident:
+			inline = x.Name == "nil" || x.Name == "true" || x.Name == "false"
+		}
+		if inline {
+			args = append(args, a)
+		} else {
+			args = append(args, define(fmt.Sprintf("verifGoA%d", i), a))
+		}
+	}
+	inner := &ast.CallExpr{Fun: fn, Args: args, Ellipsis: call.Ellipsis}
+	if call.Ellipsis.IsValid() {
+		inner.Ellipsis = 1
+	}
+	lit := &ast.FuncLit{
+		Type: &ast.FuncType{Params: &ast.FieldList{}},
+		Body: &ast.BlockStmt{List: []ast.Stmt{&ast.ExprStmt{X: inner}}},
+	}
+	stmts = append(stmts, goCall(lit))
+	return &ast.BlockStmt{List: stmts}
 }
 
 func (r *rewriter) Visit(n ast.Node) ast.Visitor {
